@@ -1,6 +1,7 @@
 import LyModel.Valid.LemmasValdiffLevel
 import LyModel.Valid.LemmasValdiff
 import LyModel.Valid.LemmasLoop
+import LyModel.Valid.LemmasCasesFix
 /-!
 # Lemmas for C07 `valdiff_exact`, part 5: the validation of freshly built / parsed explicit data
 
@@ -52,10 +53,11 @@ theorem casesStep_allNew (X : SchemaX) (cx : Cx) (choice : STree) (sibs : List D
 
 mutual
 theorem choiceR_allNew_T (X : SchemaX) (cx : Cx) : ∀ (t : STree) (sibs : List DNode), (∀ n ∈ sibs, n.flags.new = true) →
+    (∀ n ∈ sibs, n.flags.dflt = false) →
     ((choiceRNode X cx t sibs).1 = sibs ∧ (choiceRNode X cx t sibs).2.evs = []) ∧
     ((choiceRCase X cx t sibs).1 = sibs ∧ (choiceRCase X cx t sibs).2.evs = [])
-  | .mk s i ks, sibs, hn => by
-    have ihL := choiceR_allNew_L X cx ks sibs hn
+  | .mk s i ks, sibs, hn, hd => by
+    have ihL := choiceR_allNew_L X cx ks sibs hn hd
     constructor
     · rw [choiceRNode]
       split
@@ -63,20 +65,21 @@ theorem choiceR_allNew_T (X : SchemaX) (cx : Cx) : ∀ (t : STree) (sibs : List 
         · exact ⟨rfl, rfl⟩
         · obtain ⟨h1, h2⟩ := casesStep_allNew X cx (.mk s i ks) sibs hn
           dsimp only
-          rw [h1, Out.append_evs, h2, ihL.2.1, ihL.2.2]
+          rw [casesStepQ_fresh X cx _ sibs hn hd, h1, Out.append_evs, h2, ihL.2.1, ihL.2.2]
           exact ⟨rfl, rfl⟩
       · exact ⟨rfl, rfl⟩
     · rw [choiceRCase]
       exact ihL.1
 theorem choiceR_allNew_L (X : SchemaX) (cx : Cx) : ∀ (ks : List STree) (sibs : List DNode), (∀ n ∈ sibs, n.flags.new = true) →
+    (∀ n ∈ sibs, n.flags.dflt = false) →
     ((choiceRL X cx ks sibs).1 = sibs ∧ (choiceRL X cx ks sibs).2.evs = []) ∧
     ((choiceRCases X cx ks sibs).1 = sibs ∧ (choiceRCases X cx ks sibs).2.evs = [])
-  | [], sibs, _ => by
+  | [], sibs, _, _ => by
     rw [choiceRL, choiceRCases]
     exact ⟨⟨rfl, rfl⟩, ⟨rfl, rfl⟩⟩
-  | k :: rest, sibs, hn => by
-    have ihT := choiceR_allNew_T X cx k sibs hn
-    have ihL := choiceR_allNew_L X cx rest sibs hn
+  | k :: rest, sibs, hn, hd => by
+    have ihT := choiceR_allNew_T X cx k sibs hn hd
+    have ihL := choiceR_allNew_L X cx rest sibs hn hd
     constructor
     · rw [choiceRL]
       dsimp only
@@ -105,7 +108,7 @@ def FreshLevel (sibs : List DNode) : Prop := ∀ n ∈ sibs, n.flags.new = true 
 theorem validateNew_freshLevel (X : SchemaX) (o : VOpts) (cx : Cx) (sibs : List DNode) (h : FreshLevel sibs) :
     (validateNew X o cx sibs).1 = sibs.map normNew ∧ (validateNew X o cx sibs).2.evs = [] := by
   unfold validateNew
-  obtain ⟨h1, h2⟩ := (choiceR_allNew_L X cx (X.kidsOf cx.parent) sibs (fun n hn => (h n hn).1)).1
+  obtain ⟨h1, h2⟩ := (choiceR_allNew_L X cx (X.kidsOf cx.parent) sibs (fun n hn => (h n hn).1) (fun n hn => (h n hn).2)).1
   dsimp only
   rw [h1, newLoop_noDflt X o cx.keysOld (sibs.length + 1) sibs [] none (by omega) (by
     intro n hn; exact (h n (by simpa using hn)).2)]
